@@ -177,7 +177,8 @@ def run_mutant(job):
     rec = {"property": pid, "file": rel, "line": site[0], "col": site[1], "node": site[2], "mutation": ap.desc, "source_line": src.splitlines()[site[0] - 1].strip()[:160]}
     try:
         shutil.copytree(os.path.join(REPO, "pyrex"), os.path.join(d, "pyrex"), ignore=shutil.ignore_patterns("__pycache__"))
-        shutil.copytree(os.path.join(REPO, "tests"), os.path.join(d, "tests"), ignore=shutil.ignore_patterns("__pycache__"))
+        # tests/pyrex is a symbolic link to ../pyrex: keep it a link, or the tests would import an unmutated copy of the package
+        shutil.copytree(os.path.join(REPO, "tests"), os.path.join(d, "tests"), ignore=shutil.ignore_patterns("__pycache__"), symlinks=True)
         for extra in ("setup.py", "setup.cfg", "pyproject.toml"):
             if os.path.exists(os.path.join(REPO, extra)):
                 shutil.copy(os.path.join(REPO, extra), d)
